@@ -49,6 +49,8 @@ class ExprMixin(object):
                 return SV(None, "callable", py=("oracle", name))
             if name in self.C.SPECFUNS:
                 return SV(None, "callable", py=("specfun", name))
+            if name in self.C.MACROS:
+                return SV(None, "callable", py=("macro", name))
         if name in self.src.classes:
             return SV(None, "class", py=name)
         if name in KNOWN_MODULES:
@@ -61,9 +63,11 @@ class ExprMixin(object):
         cands = [f for f in self.src.functions if f.endswith(":" + name)]
         if len(cands) == 1:
             return SV(None, "callable", py=("func", cands[0]))
-        gl = self.module_globals.get(name)
-        if gl is not None:
-            return self.mk_const(gl) if not isinstance(gl, SV) else gl
+        if name in self.C.GLOBALS:
+            gl = self.C.GLOBALS[name]
+            if isinstance(gl, tuple) and gl[0] == "sentinel":
+                return SV(self.u.X(z3.IntVal(-1000 - gl[1])), "sentinel", py=gl[1])
+            return self.lit_value(st, gl)
         if hasattr(__import__("builtins"), name):
             return SV(None, "callable", py=("builtin", name))
         raise Undecided("unknown global name %r" % name)
@@ -158,7 +162,7 @@ class ExprMixin(object):
         if base.kind != "ref":
             if not self.in_spec:
                 self.oblige(st, "deref", self.auto_label(node, "deref"),
-                            z3.And(u.is_R(base.z), u.r(base.z) > 0),
+                            u.is_R(base.z),
                             note="receiver of .%s is an object (not None)" % attr)
             st.assume(u.is_R(base.z))
             base = SV(base.z, "ref", cls=base.cls, elem=base.elem)
@@ -307,8 +311,14 @@ class ExprMixin(object):
             n = self.seq_len(st, base)
             if not self.in_spec:
                 self.index_check(st, acc, z3.And(zi < n, zi >= -n), node, "sequence index in range")
-            real = z3.If(zi < 0, zi + n, zi)
-            return st, self.seq_get(st, base, z3.simplify(real))
+            zs = z3.simplify(zi)
+            if z3.is_int_value(zs):
+                real = zs if zs.as_long() >= 0 else n + zs
+            elif self.in_spec:
+                real = zi       # contract language: indices are non-negative
+            else:
+                real = z3.If(zi < 0, zi + n, zi)
+            return st, self.seq_get(st, base, real)
         if base.cls == "dict":
             return self.dict_get_item(st, base, idx, acc, node)
         if base.cls is not None and base.cls not in CONTAINER_CLASSES:
@@ -397,10 +407,10 @@ class ExprMixin(object):
             newlen = z3.If(h > l, h - l, 0)
             res = self.new_symbolic_seq(st, base.cls, base.elem, length=z3.simplify(newlen))
             k = u.fresh_int("k")
-            src_el = self.heap_array(st, "$at")[self.as_ref(base)]
-            dst_el = self.heap_array(st, "$at")[self.as_ref(res)]
+            src_el = self.seq_elems(st, base)
+            dst_el = self.seq_elems(st, res)
             st.assume(z3.ForAll([k], z3.Implies(z3.And(0 <= k, k < newlen),
-                                                  dst_el[k] == src_el[k + l])))
+                                                  dst_el(k) == src_el(k + l))))
             return st, res
         raise Undecided("slice of %r" % (base,))
 
@@ -522,7 +532,8 @@ class ExprMixin(object):
         s2 = st.copy()
         s2.assume(z3.Not(t))
         s2, v2 = self.eval(node.orelse, s2, acc)
-        return self.merge([s1, s2]), self.merge_sv_pair(t, v1, v2)
+        merged = self.merge([s1, s2])
+        return merged, self.merge_sv_pair(t, v1, v2)
 
     def e_Compare(self, node, st, acc):
         st, left = self.eval(node.left, st, acc)
@@ -589,10 +600,11 @@ class ExprMixin(object):
             return self.heap_array(st, "$has")[r][item.z]
         if container.cls in ("list", "tuple"):
             k = u.fresh_int("k")
-            n = self.heap_array(st, "$len")[r]
-            el = self.heap_array(st, "$at")[r]
+            cv = SV(container.z, "ref", cls=container.cls, elem=container.elem)
+            n = self.seq_len(st, cv)
+            el = self.seq_elems(st, cv)
             if item.kind == "str" or item.kind in ("int", "bool", "enum", "none", "ref") or self.in_spec:
-                return z3.Exists([k], z3.And(0 <= k, k < n, el[k] == item.z))
+                return z3.Exists([k], z3.And(0 <= k, k < n, el(k) == item.z))
             raise Undecided("membership with == of unknown kind")
         if container.cls is not None:
             owner, fn = self.src.lookup_method(container.cls, "__contains__")
@@ -688,10 +700,9 @@ class ExprMixin(object):
         elem = a.elem if a.elem == b.elem else None
         res = self.new_symbolic_seq(st, a.cls, elem, length=la + lb)
         k = u.fresh_int("k")
-        at = self.heap_array(st, "$at")
-        ea, eb, er = at[self.as_ref(a)], at[self.as_ref(b)], at[self.as_ref(res)]
-        st.assume(z3.ForAll([k], z3.Implies(z3.And(0 <= k, k < la), er[k] == ea[k])))
-        st.assume(z3.ForAll([k], z3.Implies(z3.And(0 <= k, k < lb), er[k + la] == eb[k])))
+        ea, eb, er = self.seq_elems(st, a), self.seq_elems(st, b), self.seq_elems(st, res)
+        st.assume(z3.ForAll([k], z3.Implies(z3.And(0 <= k, k < la), er(k) == ea(k))))
+        st.assume(z3.ForAll([k], z3.Implies(z3.And(0 <= k, k < lb), er(k + la) == eb(k))))
         return res
 
     # ------------------------------------------------------------------
